@@ -10,6 +10,7 @@
   an absolute date in 1970, the L1 copy is born expired).
 -/
 import Rend.Proofs.OrcaSeq
+import Rend.Proofs.GatStale
 
 namespace Rend.Props.C09
 open Rend
@@ -117,5 +118,15 @@ theorem C09_backfill_over_30_days_differs :
     (backfillItem 1700000000 ⟨[1], 0, 1700000000 + 2592001⟩).deadline = 2592001 ∧
     (backfillItem 1700000000 ⟨[1], 0, 1700000000 + 2592001⟩).live 1700000000 = false := by
   decide
+
+/-- **Finding D7, in the model** (the code does the same: `known_findings.jsonl`, directed
+    scenario `C09-dir-gat-append`).  The chunking handler's get-and-touch gives the metadata entry
+    the new deadline but leaves its bytes untouched — so the expiry recorded INSIDE the metadata,
+    which append / prepend re-store the value with, is still the one from before. -/
+theorem C09_chunked_gat_keeps_recorded_expiry (now : Nat) (t : Tier) (c : KeyCmd) (w : World) (tk : List Bytes)
+    (htk : ∀ x ∈ tk, x.length = 16) (it : Item) (h : (w.get t).look now (Chunked.metaKey c.key) = some it) :
+    (((Chunked.gat (ε := OEv) t c).eval now w tk).2.2.1.get t) (Chunked.metaKey c.key) =
+      some { it with deadline := deadlineOf now c.exptime } :=
+  Chunked.gat_keeps_recorded_expiry now t c w tk htk it h
 
 end Rend.Props.C09
